@@ -7,6 +7,7 @@
 package excelize
 
 import (
+	"io"
 	"reflect"
 	"time"
 )
@@ -61,4 +62,37 @@ func VerifCfbLocate(names []string, sizes []int) []int {
 	}
 	compoundFile.prepare()
 	return compoundFile.locate()
+}
+
+// VerifBufferedWriter drives the stream writer's buffered writer: a positive
+// element writes that many bytes (a running byte counter), zero calls Sync. It
+// reports whether a temp file is in use, the size of the in-memory part and
+// what a reader gets back.
+func VerifBufferedWriter(ops []int) (spilled bool, buffered int, contents []byte, err error) {
+	var (
+		bw bufferedWriter
+		n  byte
+	)
+	defer bw.Close()
+	for _, op := range ops {
+		if op == 0 {
+			if err = bw.Sync(); err != nil {
+				return
+			}
+			continue
+		}
+		p := make([]byte, op)
+		for i := range p {
+			p[i] = n
+			n++
+		}
+		_, _ = bw.Write(p)
+	}
+	spilled, buffered = bw.tmp != nil, bw.buf.Len()
+	r, err := bw.Reader()
+	if err != nil {
+		return
+	}
+	contents, err = io.ReadAll(r)
+	return
 }
